@@ -723,7 +723,10 @@ FIXED = ('BIT 7,A', 'RES 0,(HL)', 'SET 3,B', 'IM 0', 'IM 1', 'IM 2', 'RST 0', 'R
          'OR "a"', 'RST %1000', 'IN A,($FE)', 'OUT (254),A', 'IM  1', 'BIT  7 , A', 'ld ixl,$1f', 'defm "MiXed"', 'DEFB $aB,$Cd',
          'LD DE,$abcd', 'JP $0008', 'CALL 56', 'DEFS 4,%101', 'DEFS $02', 'DEFB "a"-"A"', 'LD (IY+%101),1', 'BIT 0,(IX+"1")',
          'DEFM "Hi"," "+128', 'DEFB " "+1', 'DEFS 2," "+$80', 'LD A," "+1', 'DEFW " "*256', 'DEFB "a" + 1', 'DEFM "a b"," "', 'CP " "+%1',
-         'DEFB ","+1,","', 'DEFB ";"+1', 'LD HL,"("*2', 'DEFB "\\\\"+1')
+         'DEFB ","+1,","', 'DEFB ";"+1', 'LD HL,"("*2', 'DEFB "\\\\"+1',
+         # a string / character that ends with an escaped backslash, followed by constants whose case matters
+         'DEFM "C:\\\\","Hi"', 'DEFB "\\\\","a"', 'LD (IX+"\\\\"),"a"', 'DEFM "a\\\\b","Cd","\\"e\\""', 'DEFB "\\\\"+1,"z"',
+         'DEFM "\\\\\\\\","Q"', 'DEFW "\\\\","k"')
 
 
 def spell(rnd, v):
